@@ -58,8 +58,9 @@ pub fn run(ctx: &Ctx) -> Report {
     let mut rep = Report::new("C11", "exploration");
     let enables = ClvmFlags::ENABLE_KECCAK_OPS_OUTSIDE_GUARD | ClvmFlags::ENABLE_SHA256_TREE | ClvmFlags::ENABLE_SECP_OPS;
     let bases: Vec<ClvmFlags> = ctx.pick(
-        vec![ClvmFlags::empty(), enables | ClvmFlags::MALACHITE, MEMPOOL_MODE],
-        vec![ClvmFlags::empty(), ClvmFlags::MALACHITE, enables, MEMPOOL_MODE, MEMPOOL_MODE | enables, ClvmFlags::ENABLE_GC | enables, ClvmFlags::LIMITS],
+        // every flag whose meaning the new model changes or drops appears alone at least once (DISABLE_OP, LIMITS)
+        vec![ClvmFlags::empty(), enables | ClvmFlags::MALACHITE, MEMPOOL_MODE, ClvmFlags::DISABLE_OP, ClvmFlags::LIMITS | ClvmFlags::ENABLE_GC, ClvmFlags::CANONICAL_INTS | ClvmFlags::LIMIT_SOFTFORK],
+        vec![ClvmFlags::empty(), ClvmFlags::MALACHITE, enables, MEMPOOL_MODE, MEMPOOL_MODE | enables, ClvmFlags::ENABLE_GC | enables, ClvmFlags::LIMITS, ClvmFlags::DISABLE_OP, ClvmFlags::DISABLE_OP | enables, ClvmFlags::NO_UNKNOWN_OPS, ClvmFlags::CANONICAL_INTS, ClvmFlags::LIMIT_SOFTFORK, ClvmFlags::LIMIT_HEAP, ClvmFlags::RELAXED_BLS, ClvmFlags::ENABLE_GC],
     );
     let ops = { let mut o = all_single_byte_ops(); o.extend(multibyte_ops()); o };
     let spaces: Vec<ProgSpace> = vec![
